@@ -291,7 +291,7 @@ def run(ctx):
             finals = [c for c in commits if not in_cycle(b, c.bb)]
             last = finals[0] if finals else commits[-1]
             g = gates(b, last.bb)
-            okf = any(strip_sym(dd)[0] == "bin" and strip_sym(dd)[1] in ("Ne", "Gt") and sym_is_call(strip_sym(strip_sym(dd)[2]), "PayloadWriter::current_len") and const_int(strip_sym(dd)[3]) == 0 and lab is True for dd, lab in g)
+            okf = any(strip_sym(dd)[0] == "bin" and ((strip_sym(dd)[1] in ("Ne", "Gt") and lab is True) or (strip_sym(dd)[1] == "Eq" and lab is False)) and sym_is_call(strip_sym(strip_sym(dd)[2]), "PayloadWriter::current_len") and const_int(strip_sym(dd)[3]) == 0 for dd, lab in g)
             chk.ob("C09.d", f"{hw.path} [final flush condition]", okf, "the remaining payload is finalised exactly when current_len() != 0 (bytes beyond the placeholder)" if okf else "the final flush is not conditioned on current_len() != 0: in length-prefixed mode the placeholder alone makes the buffer non-empty, and a payload without name or values is emitted", last.loc())
     for wname, tok in (("write_counter", "|c"), ("write_gauge", "|g")):
         f = one_method(chk, "C09.d", d, PW, wname)
@@ -416,6 +416,19 @@ def run(ctx):
                             dd = strip_sym(dd)
                             if dd[0] == "bin" and dd[1] in ("Eq", "Ne") and any(strip_sym(x)[:3] == ("const", "int", 0) for x in dd[2:4]) and "numerate" in repr(dd) and isinstance(lab, bool):
                                 positional = (dd[1] == "Eq") == lab
+                    if positional is None and "|#" in [x for x in (_bytes_consts(alt) or []) if x]:
+                        # ... or chosen by the `already wrote a tag` flag: `let sep = if wrote { b"," } else { b"|#" }`
+                        for s_ in range(b.n):
+                            t_ = b.term(s_)
+                            if t_["k"] == "switch" and t_.get("dty") == "bool" and in_cycle(b, s_):
+                                l_ = _root_local(b, t_["discr"])
+                                if l_ is None or len(b.defs().get(l_, [])) < 2:
+                                    continue
+                                vals_ = [a["v"] for a in t_["arms"]]
+                                for lab, tg in b.switch_edges(s_):
+                                    truth = (not bool(vals_[0]) if len(vals_) == 1 else None) if lab == "otherwise" else bool(lab)
+                                    if truth is False and (tg == bb_a or b.edge_dominates((s_, tg), bb_a)):
+                                        flag = l_
             if flag is None:
                 g_ = [sym_str(dd)[:60] for dd, _lab in gates(b, W)]
                 idx_idiom = bool(positional)
